@@ -224,7 +224,29 @@ def analyse(run: Run, rec: sym.Record, module: str, scope: str, event_params: Se
     return n
 
 
+def learned_names(repo: Repo, run: Run) -> None:
+    """"the process names learned from a thread's own new-thread/exec record pairs depend only on that thread's own event
+    sequence": a name record files its text under the pid of the thread's OWN pending data record (the slot keyed by the
+    emitting thread), not under whatever a table that other threads write holds at that moment - that is C14/R4, a necessary
+    condition here."""
+    from . import c14
+    probe = Run("C14", run.tier, run.repo_root)
+    try:
+        c14.check(repo, probe)
+    except AnalysisError:
+        pass            # the floor below fails if the obligations were not reached
+    n = 0
+    for o in probe.obligations:
+        if o["rule"] == "R4" and "pids_names[record's own id]" in o["construct"]:
+            n += 1
+            run.ob("R0", o["module"], o["scope"], f"learned names (C14/R4): {o['construct']}", o["ok"],
+                   (o.get("what", "") + " - the name learned from a thread's own record pair then depends on what other threads "
+                    "logged in between (the merge order of the per-CPU buffers)") if not o["ok"] else "", nontrivial=False)
+    run.floor("R0", "name-learning obligations taken over from C14", n, 2)
+
+
 def check(repo: Repo, run: Run) -> None:
+    learned_names(repo, run)
     from .c07 import Ctx
     ctx = Ctx(repo)
     interp = ctx.interp
